@@ -7,6 +7,10 @@ os.chdir(HERE)
 man = json.load(open("MANIFEST.json"))
 props = [c["property_id"] for c in man["checks"]]
 only = sys.argv[1:]
+import tempfile
+_TMP = tempfile.mkdtemp(prefix="verif-matrix-")
+os.makedirs(_TMP + "/ev"); os.makedirs(_TMP + "/rep")
+ENV = dict(os.environ, VERIF_EVIDENCE_DIR=_TMP + "/ev", VERIF_REPORT_DIR=_TMP + "/rep")   # never overwrite /verif/evidence with patched-tree results
 matrix = {}
 if os.path.exists("seeded/MATRIX.json"):
     matrix = json.load(open("seeded/MATRIX.json"))
@@ -24,7 +28,7 @@ for d in sorted(glob.glob("seeded/*/")):
         res = {}
         from concurrent.futures import ThreadPoolExecutor
         def one(p):
-            r = subprocess.run(["./check", p, "--tier", "quick"], stdout=subprocess.PIPE, stderr=subprocess.STDOUT, text=True)
+            r = subprocess.run(["./check", p, "--tier", "quick"], stdout=subprocess.PIPE, stderr=subprocess.STDOUT, text=True, env=ENV)
             rules = sorted({l.split()[2] for l in r.stdout.splitlines() if l.strip().startswith("violated:")})
             return p, r.returncode, rules
         with ThreadPoolExecutor(8) as ex:
@@ -36,3 +40,4 @@ for d in sorted(glob.glob("seeded/*/")):
         subprocess.check_call(["git", "-C", "/repo", "checkout", "--", "."])
     print(sid, "->", {k: v["rules"] for k, v in matrix[sid].get("caught_by", {}).items()}, flush=True)
 json.dump(matrix, open("seeded/MATRIX.json", "w"), indent=1, sort_keys=True)
+import shutil; shutil.rmtree(_TMP, ignore_errors=True)
